@@ -1,14 +1,14 @@
 """C23 — fabrication clean-up keeps exactly the connected material.
 
 Bounded exhaustive enumeration (engine E2) against a 6-connectivity reference model:
-  * `RemoveFloatingMaterial.__call__` on **all** binary volumes of every shape with <= 12 cells, of 4x4x1, 2x2x4 (all
-    orientations) and 3x3x2 / 3x2x3 / 2x3x3 (thorough: 5x5x1, 3x4x2, 2x3x4, 3x3x3 with <= 10 material cells); both
-    choices of the background material.  Oracle: output material == material cells face-connected, through material,
-    to the bottom layer z=0 (numpy flood fill to the fixpoint, cross-validated against scipy.ndimage.label).
-  * `ConnectHolesAndStructures.__call__` on all binary volumes of every shape with <= 12 cells, 4x4x1, 2x2x4, 3x3x2
-    (+ ternary volumes with a fill material on shapes <= 9 cells).  Oracle: the output has no floating material and
-    no background component that is disconnected from the four sides and the top.
-  * parameterised adversarial families (serpentines, spirals, combs; every axis orientation; up to 9x9x3) for both.
+  * `RemoveFloatingMaterial.__call__` on **all** binary volumes of every shape with <= 12 cells, of 4x4x1, 2x2x4, 3x3x2 (all
+    orientations) and 2x4x2 (thorough: 5x5x1, 2x2x5, 3x4x2, 2x3x4, ..., 3x3x3 with <= 10 material cells); both choices
+    of the background material.  Oracle: output material == material cells face-connected, through material, to the
+    bottom layer z=0 (numpy flood fill to the fixpoint, cross-validated against scipy.ndimage.label).
+  * `ConnectHolesAndStructures.__call__` on all binary volumes of every shape with <= 9 cells (thorough 12), 2x2x3
+    orientations, 3x3x2, 4x4x1, 2x2x4, ... (+ ternary volumes with a fill material on shapes <= 6/8 cells).  Oracle: the
+    output has no floating material and no background component that is disconnected from the four sides and the top.
+  * parameterised adversarial families (serpentines, spirals, combs; 4 embeddings; every axis orientation; up to 9x9x3).
 The transforms are initialised like `Device.place_on_grid` does (init_module + init_type) and driven by `__call__`.
 """
 import itertools
@@ -25,7 +25,7 @@ MANIFEST = {
 }
 RULE = (
     "case = (transform, shape, range of binary volumes) or (family, size, embedding) with all 24 orientations; every volume is run through "
-    "the real transform (jax.vmap batches for the exhaustive part, plain calls for the families). A volume is non-trivial for "
+    "the real transform (jax.vmap batches for the exhaustive part, jax.jit per shape for the families). A volume is non-trivial for "
     "RemoveFloatingMaterial when it contains floating material or connected material above the bottom layer, for ConnectHolesAndStructures "
     "when the input contains floating material or enclosed background (the transform has to act)."
 )
@@ -365,6 +365,7 @@ def run_case(case):
                 break
             judge_chs(P[lo:hi] != 0, O != 0, shape, "exhaustive-ternary")
     else:
+        jitted = {}
         pat = pattern(case["family"], case["m"], case["k"] or case["m"])
         vol = embed(pat, case["emb"])
         for name, v in orientations(vol):
@@ -375,10 +376,12 @@ def run_case(case):
                 for kind2 in ("rfm", "chs"):
                     if kind2 == "chs" and not (case.get("connect") and name.endswith("flipx0")):
                         continue
-                    t, bg_idx = _mk(kind2, shape)
+                    if (kind2, shape) not in jitted:  # one trace/compile per (transform, shape): the loop bodies are fresh closures on every eager call
+                        t, bg_idx = _mk(kind2, shape)
+                        jitted[(kind2, shape)] = jax.jit(lambda a, t=t: t({"params": a})["params"])
                     evals += 1
                     try:
-                        o = np.asarray(t({"params": jnp.asarray(x.astype(np.float64))})["params"])
+                        o = np.asarray(jitted[(kind2, shape)](jnp.asarray(x.astype(np.float64))))
                     except ValueError as e:
                         fail(_raise_sig(kind2, shape, e), dict(shape=list(shape), where=tag, error=str(e)[:200]))
                         continue
